@@ -19,7 +19,7 @@ EXPLANATION = (
     "every wrapper's initial() wraps self.env.initial(key) and sets every other state field to a literal (TimeLimit: step_count = 0); "
     "C01.9 on wrapper stacks the composed signals are the inner environment's: every exported wrapper's initial / transition / observation / reward / "
     "terminal / truncate delegates to the inner method (with only its declared transformation) and TimeLimit's truncate is inner truncate | count >= N with the count "
-    "restarting at 0 and advancing by 1; C01.8 the Gymnasium adapter stores element 0 of the same step/reset call whose other elements it returns."
+    "restarting at 0 and advancing by 1; C01.8 the Gymnasium adapter stores element 0 of the same step/reset call whose other elements it returns and advances its running key; the gymnax adapter leaves gymnax's public step / reset in place, its step_env returns the observation / reward / info of ONE Gym-style step with done == terminal | truncated, GymnaxToLeraxEnv hands each cached signal out of the state it belongs to, and no adapter defines an equality that ignores the adapted environment."
 )
 ASSUMPTIONS = [
     "lax.cond selects its first branch when the predicate is true", "correctness of the functional components (transition, reward, ...) is not decided here",
@@ -213,6 +213,10 @@ def check(s):
     s.ob("C01.8", "adapters.__eq__", not ie, "no adapter defines an equality that ignores part of its state (the adapted environment)", ie[0][1] + f":{ie[0][2]}" if ie else gx.module.relpath,
          key="adapter-equality", detail="; ".join(f"{q} ignores {', '.join(ms)}" for q, _, _, ms in ie),
          necessary_for="the reward, flags and successor reported are those of the transition taken by THIS environment")
+    # the gymnax adapters hand the same signals across the API boundary: `done` is terminal | truncated of the ONE Gym-style step taken,
+    # the reward / observation / info are that step's, and the cached signals of GymnaxToLeraxEnv come out of the state they belong to
+    from .C13 import check_gymnax
+    check_gymnax(s, rule="C01.8")
     # ---------------------------------------------------------------- C01.9 wrapper stacks: the signals step composes
     # step calls self.transition / reward / terminal / truncate / observation / initial; on a wrapper stack these are the wrapper's
     # methods, so "the flags of exactly the transition taken" needs every wrapper to hand the inner signal through (TimeLimit: OR-ed
